@@ -214,6 +214,18 @@ func (w *hWorld) apply(k int, op hOp) bool {
 		w.step = fmt.Sprintf("#%d peer %s appears", k, n)
 		w.s.logf("%s", w.step)
 		w.s.addPeer(n)
+	case "up2":
+		// a second convergence layer to a peer that is already connected
+		if np == 0 {
+			return false
+		}
+		n := w.names[op.A%np]
+		if !w.s.connected(n) || w.s.connected(n+"#2") {
+			return false
+		}
+		w.step = fmt.Sprintf("#%d peer %s is now connected over a second convergence layer as well", k, n)
+		w.s.logf("%s", w.step)
+		w.s.addSecondLink(n)
 	case "down":
 		if np == 0 {
 			return false
